@@ -533,7 +533,10 @@ def jobs_C12(rng, tier):
         # affine invariance
         for nm in ("hln", "vsct", "cti", "net", "eft"):
             e = ex(nm, n)
-            js.append(Relation("same", e, [xs, [a * x + b for x in xs]], dict(map="id", **tolp(e))))
+            # CTI correlates against the nominal window length while its window is still filling, so it is offset-invariant
+            # only once the window is full (known finding K6, replayed from known_findings.json): compare from step N on
+            sk = dict(skip=list(range(gen.window_of(e) - 1))) if nm == "cti" else {}
+            js.append(Relation("same", e, [xs, [a * x + b for x in xs]], dict(map="id", **sk, **tolp(e))))
         # scale invariance
         for nm in ("rsi", "myrsi", "lagrsi", "roc", "cog", "bent", "tflex", "rflex"):
             e = ex(nm, n)
